@@ -97,13 +97,20 @@ func c06Inputs() []plan.Input {
 }
 
 func genC06(r *plan.Rng) *plan.Plan {
+	var p *plan.Plan
 	switch x := r.Intn(10); {
 	case x < 6:
-		return genC06Alloc(r)
+		p = genC06Alloc(r)
 	case x < 9:
-		return genC06Strlen(r)
+		p = genC06Strlen(r)
+	default:
+		p = genC06Recursion(r)
 	}
-	return genC06Recursion(r)
+	// the runs of one episode follow each other in one process: what the
+	// formatter's pool hands from one run to the next must not depend on when
+	// the collector happens to clear it
+	p.Cfg.NoGC = true
+	return p
 }
 
 func genC06Alloc(r *plan.Rng) *plan.Plan {
@@ -226,7 +233,7 @@ func genC06Strlen(r *plan.Rng) *plan.Plan {
 		{"g8 := []", "for i := 0; i < R; i++ {", "	g8 = append(g8, str + string(i))", "}", "g8s := string(g8)", "g8f := format(\"%v|%s\", g8, g8)"},
 		{"g9 := {k: str}", "for i := 0; i < R; i++ {", "	g9.k = g9.k + str", "}", "g9s := format(\"%v\", g9)"},
 		{"g10 := format(\"%0\" + string(R * 11) + \"d\", n)", "g10b := format(\"%-\" + string(R * 5) + \"s|\", str)", "g10c := format(\"%.\" + string(R * 3) + \"f\", fl)"},
-		{"g11 := byt", "for i := 0; i < R; i++ {", "	g11 = g11 + str", "}", "g11b := bytes(string(g11) + str)"},
+		{"g11 := byt", "for i := 0; i < R; i++ {", "	g11 = g11 + bytes(str)", "}", "g11b := bytes(string(g11) + str)"},
 		{"g12 := str[0:2] + str[1:] + string(str[0])", "g12b := byt[1:] + byt[:2]", "for i := 0; i < R; i++ {", "	g12 = g12 + g12[1:]", "}"},
 		{"g13 := error(str + str)", "g13b := string(g13)", "g13c := format(\"%v%v\", g13, g13)", "g13d := [g13b + g13b]"},
 		{"g15 := format(\"%x\", str)", "g15b := format(\"%X\", byt)"},
@@ -239,7 +246,7 @@ func genC06Strlen(r *plan.Rng) *plan.Plan {
 		{"g22 := format(\"%v\", [str, [str, byt], {k: str}])", "g22b := format(\"%s\", error(str + str))", "g22c := format(\"%d\", [n, n, n])"},
 		{"g23 := \"\"", "for i := 0; i < R * 2 + 1; i++ {", "	g23 += char(55296 + i)", "}"},
 		{"g24 := str[0:R % 6]", "for i := 0; i < R + 2; i++ {", "	g24 += 'é'", "	g24 = g24 + char(1114112 + i)", "	g24 += char(-1 - i)", "}"},
-		{"g25 := \"abcdef\" + \"gh\"[0:R % 3]", "g25b := g25 + char(56000)", "g25c := g25 + 'z'", "g25d := g25 + '€'", "g25e := char(57343) + g25"},
+		{"g25 := \"abcdef\" + \"gh\"[0:R % 3]", "g25b := g25 + char(56000)", "g25c := g25 + 'z'", "g25d := g25 + '€'", "g25e := string(char(57343)) + g25"},
 		{"g26 := \"0123456789abcdefghij\"", "g26b := {abcdefghijklmnopqrstuvwxyz: 1}", "g26c := `raw 0123456789abcdefghijklmnopqrstuvwxyz0123456789abcdefghijklmnopqrstuvwxyz`"},
 		{"g27 := string(time(n))", "g27b := format(\"%v\", time(n))", "g27c := \"t\" + time(n)", "g27d := string(error(time(n)))"},
 		{"g28 := format(\"%q\", \"a\\\"b\\\"c\\\"\")", "g28b := format(\"%q\", \"t\\tn\\n\")", "g28c := format(\"%+q\", str)", "g28d := format(\"%q\", bytes(\"\\x00\\x01\\x02\"))", "g28e := format(\"%#q\", \"back`tick\")", "g28f := format(\"%q\", str[0:2])"},
@@ -247,6 +254,7 @@ func genC06Strlen(r *plan.Rng) *plan.Plan {
 		{"g30 := format(\"%q\", \"\\\"\\\"\\\"\\\"\\\"\\\"\")", "g30z := 1"},
 		{"q31 := \"\"", "for i := 0; i < R * 7; i++ {", "	q31 += \"\\\"\"", "}", "g31 := format(\"%q\", q31)"},
 		{"q32 := \"\"", "for i := 0; i < R * 3; i++ {", "	q32 += \"é\\n\"", "}", "g32 := format(\"%+q\", q32)", "g32b := format(\"%q\", bytes(q32))"},
+		{"g34 := type_name(immutable([1]))", "g34b := type_name(func() {})", "g34c := type_name(len)", "g34d := [type_name(immutable({})), type_name(undefined), type_name(stz)]", "g34e := type_name(g34d) + type_name(bytes(1))"},
 		{"g33 := format(\"%v|%v\", stz, stz)", "g33b := format(\"[%s]\", stz)", "g33c := string(stz) + format(\"%d\", n)", "g33d := format(\"%v\", [stz, n])"},
 		{"g14 := string(n * 1000000) + string(fl) + string(true) + string(undefined)", "g14b := format(\"%t|%c|%U\", true, chr, chr)"},
 	}
